@@ -1187,3 +1187,85 @@ def redecode_after_mutation(decode: Callable[[bytes], Any], raw: bytes, view: Ca
                 undo()
             except Exception:  # noqa
                 pass
+
+
+# --------------------------------------------------------------------------------------------
+# probes for results that alias the caller's INPUT buffer: a receiver decodes out of ONE receive buffer
+# (a bytearray it refills for the next packet / PDU / frame); what it decoded earlier are values and must
+# not change when the buffer is reused
+# --------------------------------------------------------------------------------------------
+def accepts_memoryview(fn: Any, param: Optional[str] = None) -> bool:
+    """True when the annotations of `fn` (of parameter `param`, or of any parameter) name `memoryview`: only then is a
+    memoryview part of the documented input domain (slicing a memoryview yields views, so a decoder that is documented
+    for bytes only cannot be expected to detach what it keeps from a memoryview it was never meant to get)"""
+    try:
+        ann = getattr(fn, "__annotations__", None) or getattr(getattr(fn, "__func__", None), "__annotations__", None) or {}
+        items = [ann[param]] if param is not None and param in ann else [v for k, v in ann.items() if k != "return"]
+        return any("memoryview" in (v if isinstance(v, str) else repr(v)) for v in items)
+    except Exception:  # noqa
+        return False
+
+
+def _clobber_patterns(raw: bytes) -> List[bytes]:
+    """same-length replacements for the content of the caller's buffer: every octet complemented (every octet
+    differs from what was decoded) and a constant fill"""
+    return [bytes(b ^ 0xFF for b in raw), b"\xaa" * len(raw)]
+
+
+def decode_detached(decode: Callable[[Any], Any], raw: bytes, view: Callable[[Any], Any], what: str = "decoder",
+                    expect: Any = None, memview: bool = False) -> Optional[str]:
+    """The values a decoder returns are values: they stay what they are when the caller reuses the buffer it decoded
+    from. Self-contained sequence on the real code:
+        buf = bytearray(raw); obj = decode(buf); v = view(obj)
+        buf[:] = <other octets of the same length>     (two patterns, one after the other)
+        view(obj) is still v   (and v is `expect`, the view of the object decoded from the immutable octets, if given)
+    `view` must turn every observable into plain values (ints, hex strings of `bytes(field)`, `pack()` octets).
+    With memview=True the same is done with `decode(memoryview(buf))` (use accepts_memoryview to decide).
+    A decoder that REFUSES the bytearray / memoryview (whatever the class) is outside this probe: nothing is reported
+    (the type of the container is not part of any property; what is decoded from it is).
+    Returns None or a description of the failure (the caller raises SelfCheckFailure)."""
+    raw = bytes(raw)
+    for kind in (("bytearray", "memoryview") if memview else ("bytearray",)):
+        buf = bytearray(raw)
+        try:
+            obj = decode(buf if kind == "bytearray" else memoryview(buf))
+        except (SelfCheckFailure, InfraError):
+            raise
+        except Exception:  # noqa
+            continue
+        if obj is None:
+            continue
+        try:
+            v0 = view(obj)
+        except (SelfCheckFailure, InfraError):
+            raise
+        except Exception:  # noqa
+            continue        # (whatever makes the view fail is the business of the op's own checks on the bytes input)
+        if bytes(buf) != raw:
+            return (f"{what}: decoding from a {kind} holding {raw.hex()[:120]} changed the caller's buffer to "
+                    f"{bytes(buf).hex()[:120]}")
+        if expect is not None and v0 != expect:
+            return (f"{what}: the octets {raw.hex()[:120]} decode to {_short(v0)} when they are handed over in a {kind} "
+                    f"and to {_short(expect)} when they are handed over as bytes")
+        for pat in _clobber_patterns(raw):
+            buf[:] = pat
+            try:
+                v1 = view(obj)
+            except (SelfCheckFailure, InfraError):
+                raise
+            except Exception as e:  # noqa
+                return (f"{what}: the object decoded from a {kind} holding {raw.hex()[:120]} can no longer be inspected after "
+                        f"the caller overwrote that buffer with {pat.hex()[:120]} ({type(e).__name__}: {str(e)[:80]})")
+            if v1 != v0:
+                return (f"{what}: the object decoded from a {kind} (the receive buffer) holding {raw.hex()[:120]} changed when the "
+                        f"caller overwrote that buffer in place with {pat.hex()[:120]}: {_short(v0)} became {_short(v1)} - "
+                        f"the decoded object aliases the caller's input buffer")
+    return None
+
+
+def check_detached(decode: Callable[[Any], Any], raw: bytes, view: Callable[[Any], Any], what: str = "decoder",
+                   expect: Any = None, memview: bool = False) -> None:
+    """decode_detached, raising SelfCheckFailure"""
+    err = decode_detached(decode, raw, view, what, expect=expect, memview=memview)
+    if err is not None:
+        raise SelfCheckFailure(err)
